@@ -31,6 +31,10 @@
    The expiry family has a second scenario: map EMPTY for longer than limiter_expiration, then busy keys (the map
    generation must follow the wall clock while the map is empty; design level: M_GenAdvancesWhenEmpty, mutant
    "emptyskip").
+6. Key family: groups of 2-3 distinct throttle keys of 1..4097 bytes (around 32/64/128/256/512/1024/4096) sharing
+   all but their last byte(s), ASCII and multi-byte, equal length or prefix-of, under three rules, interleaved in one
+   frozen bucket through the real Plugin.Start/Do: every (rule, key) gets exactly its own budget.  Design level:
+   SpecKey (Throttle_keys.cfg), KeyOf injective, mutant "keytrunc" rejected by KeyOwnBudget.
 """
 import json
 import os
@@ -40,12 +44,12 @@ import vlib
 
 LEVEL = "model_checking"
 
-MUTANTS = ["lt", "nozero", "wipeprev", "rot1", "rotdif", "noremap", "future", "shared", "steal", "nogen", "emptyskip", "orphan", "permvals"]
+MUTANTS = ["lt", "nozero", "wipeprev", "rot1", "rotdif", "noremap", "future", "shared", "steal", "nogen", "emptyskip", "orphan", "permvals", "keytrunc"]
 MUTANT_CFG = {"nogen": "Throttle_expirymut.cfg", "emptyskip": "Throttle_expirymut.cfg",
-              "orphan": "Throttle_mapmut.cfg", "permvals": "Throttle_rulesmut.cfg"}
+              "orphan": "Throttle_mapmut.cfg", "permvals": "Throttle_rulesmut.cfg", "keytrunc": "Throttle_keysmut.cfg"}
 PROPERTY_INVARIANTS = {"NeverOverLimit", "TotalWithinSum", "NoEarlyReject", "Remap", "ValueWithinShare",
                        "MustRespected", "KeysIndependent", "BusyKeyWithinLimit", "EvictedOnlyIdle",
-                       "MapNeverOverLimit", "MapNoEarlyReject", "FirstMatchingRuleGoverns"}
+                       "MapNeverOverLimit", "MapNoEarlyReject", "FirstMatchingRuleGoverns", "KeyOwnBudget"}
 
 
 def start_expiry(ctx, binary, n):
@@ -89,7 +93,7 @@ def run(ctx):
     if len(rule_cases) < 19683:
         raise vlib.Infra("TLC exported only %d rule-selection cases" % len(rule_cases))
     if ctx.replay:
-        cases = [r["case"] for r in json.load(open(ctx.replay)) if r["case"].get("s") not in ("expiry", "concurrent", "rules")]
+        cases = [r["case"] for r in json.load(open(ctx.replay)) if r["case"].get("s") not in ("expiry", "concurrent", "rules", "keys")]
         cases = cases or [{"s": "ring", "C": 1, "k": 0, "d": 0, "l": [1], "e": [[1, 0, 0, 1, 0, 1, 1, 0]]}]
         total = len(cases)
         res = ctx.tlc_expect_ok("Throttle", "Throttle_mutant.cfg", timeout=300, deadlock=False, workers=4)
@@ -106,6 +110,7 @@ def run(ctx):
             back.out = ""
         ctx.tlc_expect_ok("Throttle", "Throttle_expiry.cfg", timeout=600, deadlock=False, workers=8)
         ctx.tlc_expect_ok("Throttle", "Throttle_map.cfg", timeout=600, deadlock=False, workers=8)
+        ctx.tlc_expect_ok("Throttle", "Throttle_keys.cfg", timeout=600, deadlock=False, workers=4)
         # every spec mutant must be rejected by a property invariant (the oracle is not vacuous)
         for m in MUTANTS:
             r = ctx.tlc("Throttle", MUTANT_CFG.get(m, "Throttle_mutant.cfg"), timeout=300, deadlock=False, workers=4,
@@ -156,12 +161,19 @@ def run(ctx):
         raise vlib.Infra("rules family executed %d of %d cases" % (rul["cases"], len(rule_cases)))
     ctx.extra["rules_family"] = {k: v for k, v in rul.items() if k != "violations"}
 
+    keys_out = os.path.join(ctx.scratch, "c16_keys_out.json")
+    rc, txt = ctx.run_bin(binary, "^TestVerifC16Keys$", env={"VERIF_KEYS_OUT": keys_out}, timeout=600)
+    if rc != 0 or not os.path.exists(keys_out):
+        raise vlib.Infra("C16 key family failed rc=%s:\n%s" % (rc, txt[-3000:]))
+    kf = json.load(open(keys_out))
+    ctx.extra["key_family"] = {k: v for k, v in kf.items() if k != "violations"}
+
     ex = finish_expiry(ctx, binary, exp_proc, exp_out)
     ctx.extra["expiry_family"] = {k: v for k, v in ex.items() if k != "violations"}
 
-    ctx.evaluations = st["Steps"] + ex["hits"] + conc["hits"] + rul["decisions"]
+    ctx.evaluations = st["Steps"] + ex["hits"] + conc["hits"] + rul["decisions"] + kf["decisions"]
     ctx.nontrivial = st["NonTrivial"]
-    ctx.traces_validated = 2 * r["executed"] + st["Projections"] + 2 + conc["keys"] + rul["instances"]
+    ctx.traces_validated = 2 * r["executed"] + st["Projections"] + 2 + conc["keys"] + rul["instances"] + kf["groups"]
     ctx.exhaustive = not ctx.replay
     ctx.drift += st["Drift"]
     ctx.extra["replay_stats"] = st
@@ -178,6 +190,8 @@ def run(ctx):
         "in-memory backend; limits >= 0; limiter expiry switched off (limiter_expiration 100000h) in the step-by-step "
         "replay; exercised separately by the real-time expiry family (limiter_expiration 2.5s, real maintenance loop, "
         "two busy keys and one idle key, one frozen bucket)",
+        "key family: key lengths 1..4097 bytes, keys of a group share all but the last 1-2 bytes (or the first byte only, "
+        "or one is a prefix of the other); ASCII, 2-byte and 3-byte runes; count kind, limits 1/2/3",
         "rules family: 2 rules + default, 0..3 equality conditions each over 3 fields x 2 values; 8 plugin instances per "
         "rule list (Go map iteration order is random, so a misalignment shows with probability 1/2 or more per instance)",
         "expiry family, idle-first scenario: limiter_expiration 4s, map empty for 5.2s, then two busy keys for 2.4s; its "
@@ -201,6 +215,7 @@ def run(ctx):
     recs += ex.get("violations") or []
     recs += conc.get("violations") or []
     recs += rul.get("violations") or []
+    recs += kf.get("violations") or []
     if r.get("by_kind"):
         ctx.extra["mismatches_by_kind"] = r["by_kind"]
     ctx.classify(recs)
